@@ -243,7 +243,7 @@ def extract(name, path, flags, repo=None, work=None, extra_flags=()):
             raise AnalysisBroken("unit %s does not parse:\n%s" % (path, err[-1500:]))
         os.replace(tmp, cfile)
         # prune older cache entries of this unit
-        for f in ([] if scratch else os.listdir(cdir)):
+        for f in ([] if (scratch or extra_flags) else os.listdir(cdir)):
             if f.startswith(name + ".") and f.endswith(".json") and os.path.join(cdir, f) != cfile:
                 try:
                     os.unlink(os.path.join(cdir, f))
